@@ -8,6 +8,7 @@ import (
 	"sort"
 	"strings"
 	"sync"
+	"sync/atomic"
 	"time"
 
 	"golang.org/x/tools/go/packages"
@@ -50,6 +51,7 @@ type Program struct {
 	stubsSeen          map[string]int
 	opaqueSeen         map[string]int
 	loadTime           time.Duration
+	fnInfos            sync.Map
 }
 
 const rulioPath = "github.com/Comcast/rulio"
@@ -123,6 +125,7 @@ type Worker struct {
 	cfg    *Config
 	solver *Solver
 	intr   map[string]intrinsicFn
+	qcache map[string]qval
 }
 
 func NewWorker(p *Program, id int, cfg *Config) (*Worker, error) {
@@ -130,7 +133,7 @@ func NewWorker(p *Program, id int, cfg *Config) (*Worker, error) {
 	if err != nil {
 		return nil, err
 	}
-	w := &Worker{Program: p, id: id, cfg: cfg, solver: s, intr: intrinsics}
+	w := &Worker{Program: p, id: id, cfg: cfg, solver: s, intr: intrinsics, qcache: map[string]qval{}}
 	return w, nil
 }
 
@@ -153,31 +156,93 @@ func (w *Worker) interpretable(fn *ssa.Function) bool {
 	return false
 }
 
-func (w *Worker) intrinsic(name string) intrinsicFn { return w.intr[name] }
+type fnInfo struct {
+	name       string
+	intr       intrinsicFn
+	interp     bool
+	generic    bool
+	isPkgInit  bool
+	initWanted bool
+	idx        map[ssa.Value]int
+	n          int
+	noted      int32
+	stubHits   int64
+	opaqueHits int64
+}
 
-func (w *Worker) noteFn(fn *ssa.Function) {
-	if fn.Pkg == nil && fn.Parent() == nil {
-		return
+// fnInfoOf caches everything the interpreter needs to know about a function.
+func (w *Worker) fnInfoOf(fn *ssa.Function) *fnInfo {
+	if v, ok := w.fnInfos.Load(fn); ok {
+		return v.(*fnInfo)
 	}
-	n := fn.String()
-	w.mu.Lock()
-	w.fnsSeen[n] = true
-	w.mu.Unlock()
+	info := &fnInfo{name: fn.String()}
+	if fn.Parent() == nil {
+		info.intr = w.intr[info.name]
+	}
+	info.interp = w.interpretable(fn)
+	info.generic = fn.TypeParams().Len() > 0 && len(fn.TypeArgs()) == 0
+	if fn.Name() == "init" && fn.Pkg != nil && fn.Parent() == nil && fn.Signature.Recv() == nil {
+		info.isPkgInit = true
+		info.initWanted = initSet[fn.Pkg.Pkg.Path()]
+	}
+	info.idx = map[ssa.Value]int{}
+	add := func(v ssa.Value) {
+		if _, ok := info.idx[v]; !ok {
+			info.idx[v] = info.n
+			info.n++
+		}
+	}
+	for _, p := range fn.Params {
+		add(p)
+	}
+	for _, fv := range fn.FreeVars {
+		add(fv)
+	}
+	for _, l := range fn.Locals {
+		add(l)
+	}
+	for _, b := range fn.Blocks {
+		for _, in := range b.Instrs {
+			if v, ok := in.(ssa.Value); ok {
+				add(v)
+			}
+		}
+	}
+	v, _ := w.fnInfos.LoadOrStore(fn, info)
+	return v.(*fnInfo)
 }
 
-func (w *Worker) noteStub(name string) {
-	w.mu.Lock()
-	w.stubsSeen[name]++
-	w.mu.Unlock()
+func (w *Worker) noteFn(info *fnInfo) {
+	if atomic.LoadInt32(&info.noted) == 0 {
+		atomic.StoreInt32(&info.noted, 1)
+	}
 }
 
-func (w *Worker) noteOpaque(name string) {
-	w.mu.Lock()
-	w.opaqueSeen[name]++
-	w.mu.Unlock()
+func (w *Worker) noteStub(info *fnInfo)   { atomic.AddInt64(&info.stubHits, 1) }
+func (w *Worker) noteOpaque(info *fnInfo) { atomic.AddInt64(&info.opaqueHits, 1) }
+
+// collectStats folds the per-function counters into the report maps.
+func (p *Program) collectStats() {
+	p.mu.Lock()
+	defer p.mu.Unlock()
+	p.fnInfos.Range(func(k, v interface{}) bool {
+		info := v.(*fnInfo)
+		fn := k.(*ssa.Function)
+		if info.noted != 0 && (fn.Pkg != nil || fn.Parent() != nil) {
+			p.fnsSeen[info.name] = true
+		}
+		if info.stubHits > 0 {
+			p.stubsSeen[info.name] = int(info.stubHits)
+		}
+		if info.opaqueHits > 0 {
+			p.opaqueSeen[info.name] = int(info.opaqueHits)
+		}
+		return true
+	})
 }
 
 func (p *Program) encodedFunctions(prefixes ...string) []string {
+	p.collectStats()
 	p.mu.Lock()
 	defer p.mu.Unlock()
 	var out []string
